@@ -175,6 +175,26 @@ class World(WsWorld):
             e.hooks["on_connect"] = lambda req: "subprotocol-never-offered"
             self.dl_open["reaction"] = None
             self.run.probe("server-cannot-complete-handshake")
+        if not is_server and ch.flag("client-onConnect-completes-later", 0.15):
+            # the client application's onConnect() returns a result that completes later (a coroutine, a Deferred): the
+            # connection is open at protocol level meanwhile - timers that come due in that window are timers like any other
+            delay = ch.pick((0.0005, 0.5, 2.5, 7.0), "onConnect-delay")
+
+            def on_connect(resp, delay=delay):
+                f = self.fw.new_future(self)
+                self.run.probe("client-onConnect-pending")
+                self.onconnect_pending = True
+
+                def completes():
+                    self.onconnect_pending = False
+                    self.fw.call(self, self.fw.resolve_future, f, None)
+                    self.fw.loop_drain(self)
+                    # (the open phase - pings, closing scenarios, chatter - is counted from the application's onOpen())
+                    if e.p._st == 3 and not self.plan_made:
+                        self.plan_open_phase()
+                self.at(self.now() + delay, "onConnect-completes", completes)
+                return f
+            e.hooks["on_connect"] = on_connect
         self.plan_made = False
         # optional wall-clock jump (only the ping payload / RTT computation reads it)
         if ch.flag("wall-clock-jump", 0.15):
@@ -206,8 +226,14 @@ class World(WsWorld):
             return
         data = hs[self.hs_cut:] if self.hs_first_sent else hs
         self.peer_send_now(data)
-        if e.p._st == 3 and not self.plan_made:
+        if self.onconnect_pending and any(ev[0] == "onOpen" for ev in e.events):
+            # (the asyncio client adapter does not wait for an asynchronous onConnect(): onOpen() has fired already)
+            self.onconnect_pending = False
+            self.run.probe("client-onConnect-not-awaited-by-the-adapter")
+        if e.p._st == 3 and not self.plan_made and not self.onconnect_pending:
             self.plan_open_phase()
+
+    onconnect_pending = False
 
     # --- phase B/C planning once open --------------------------------------------------------------------------
     def plan_open_phase(self):
